@@ -276,12 +276,23 @@ def basis (st : Stack) (suiteId : Nat) (master smaster pre c2s s2c : Bytes) : Ex
   let sp ← (suite suiteId).elim (throw ("hs-shape", s!"suite {suiteId} is not a GB/T 38636 SM2 suite")) pure
   if master.length != 48 then throw ("master", s!"cached master secret has {master.length} bytes")
   if smaster != master then throw ("master", "client and server cache entries hold different master secrets")
-  -- master secret from the pre-master secret (ECC full handshakes)
+  -- master secret from the pre-master secret (full handshakes; ECC: the driver opened the
+  -- ClientKeyExchange with the real SM2; ECDHE: the agreed value computed by the driver's own
+  -- key-agreement module, outside the library)
   if !pre.isEmpty then
-    if pre.length != 48 || pre.take 2 != be 2 0x0101 then
-      throw ("premaster", s!"pre-master secret is {pre.length} bytes starting {hex (pre.take 2)}, expected 48 bytes starting with the client version 0101")
+    if !preMasterWellFormed suiteId pre then
+      throw ("premaster", if isECDHE suiteId then s!"the SM2 key agreement produced {pre.length} bytes, the standard's pre-master secret has 48"
+        else s!"pre-master secret is {pre.length} bytes starting {hex (pre.take 2)}, expected 48 bytes starting with the client version 0101")
     match specMaster pre chello.random shello.random master with
-    | some f => throw f
+    | some (t, why) =>
+      -- name the classic deviation for agreed values with leading zero bytes
+      let z := (pre.takeWhile (· == 0)).length
+      let stripped := pre.drop z
+      let extra :=
+        if z > 0 && masterSecret sm stripped chello.random shello.random == master then
+          s!"; it IS the PRF of the agreed value with its {z} leading zero byte(s) removed ({stripped.length} bytes): the standard uses all 48 bytes"
+        else if z > 0 then s!" (the agreed value starts with {z} zero byte(s))" else ""
+      throw (t, why ++ extra)
     | none => pure ()
   pure ⟨sp, keyBlock sm sp master chello.random shello.random, cv, sv, cplain, splain, ch, chello, shello⟩
 
@@ -366,7 +377,8 @@ def judgeHS (ct ot : List String) : Option Verdict := do
     match check mst st suiteId master smaster pre c2s s2c sentc sents crng srng (kvHex ot "cfin") (kvHex ot "sfin") with
     | .ok (d, soft) =>
       let b (x : Bool) := if x then 1 else 0
-      let note := s!"{if d.resumed then "resumed" else "full"}{if pre.isEmpty then "" else "+premaster"}{if crng.isEmpty then "" else "+shortrng"}"
+      let z := (pre.takeWhile (· == 0)).length
+      let note := s!"{if d.resumed then "resumed" else "full"}{if pre.isEmpty then "" else if Spec.KeySchedule.isECDHE suiteId then "+agreed" else "+premaster"}{if z > 0 then s!"+lead0x{z}" else ""}{if crng.isEmpty then "" else "+shortrng"}"
       let spec := if d.resumed != (resume == 1) then some ("hs-shape", s!"resume={resume} requested but the wire shows resumed={b d.resumed}") else soft
       pure { model := s!"ok=1 resumed={b d.resumed} cfin={hex d.cfinModel} sfin={hex d.sfinModel}", spec := spec, note := note }
     | .error f =>
@@ -450,6 +462,7 @@ def judgeRX (ct ot : List String) : Option Verdict := do
           -- padding (legal, or with damaged padding bytes); the other fields: a genuine record with
           -- one header field rewritten
           let what := if field.startsWith "pad" then s!"a CBC record with long padding ('{field}': padding bytes damaged)"
+            else if field.startsWith "nonce" then s!"a GCM record with a sender-chosen explicit nonce ('{field}')"
             else s!"a record whose header field '{field}' was rewritten"
           -- the rewritten record is a copy of the held-back B (or of an older record): its content
           -- coming out first, or anything not sent at all, means the forgery was accepted
@@ -459,6 +472,8 @@ def judgeRX (ct ot : List String) : Option Verdict := do
             some ("rx-state", s!"{path}: after rejecting {what} the genuine records were not all delivered (got {delivered.length} of {sg.length}, end={oe}): the forgery changed receiver state")
           else if field.startsWith "pad" && !(delivered.contains (hex (specOpen.getD []))) then
             some ("rx-reject", s!"{path}: a CBC record with {(kv ct "padlen").getD "?"} bytes of well-formed padding ('{field}') is valid under the standard (padding may be up to 255 bytes) but was not delivered (end={oe})")
+          else if field.startsWith "nonce" && !(delivered.contains (hex (specOpen.getD []))) then
+            some ("rx-reject", s!"{path}: an SM4-GCM record sealed under this direction's key for the expected epoch/sequence number whose 8-byte explicit nonce is {hex (((parse st t).map (fun x => explicitPart .gcm x.1.body)).getD [])} ('{field}': the sender's choice, not a copy of the sequence number) opens under the standard (nonce = write IV ‖ the explicit part carried in the record) but was not delivered (end={oe})")
           else some ("rx-lost", s!"{path}: genuine records were not delivered as sent (end={oe})")
       pure { model := s!"got={hexList mg} end={me}", spec := spec, note := if specOpen.isSome then "rx-authentic" else "rx-forged" }
   | _, _ => pure { model := "got=? end=?", spec := some ("incomplete", "the connection for the receive-path test could not be set up") }
